@@ -221,6 +221,7 @@ def main():
                 op["_oracle"] = oracles[k]
     out = []
     isolated_attrs = {}
+    cache_bad = []
     try:
         for sess in P["sessions"]:
             try:
@@ -229,11 +230,13 @@ def main():
                     # operations only (order of types within the session), not on earlier sessions
                     def work(sess=sess):
                         a0 = H.class_attr_snapshot()
-                        return {"res": run_session(sess), "attrs": H.class_attr_diff(a0)}
+                        return {"res": run_session(sess), "attrs": H.class_attr_diff(a0), "cache": H.member_cache_check()}
                     w = H.fresh(work)
                     if "fresh_error" in w:
                         raise RuntimeError(w["fresh_error"])
                     res = w["res"]
+                    for x in w.get("cache") or []:
+                        cache_bad.append({"problem": x, "session": [[o.get("op"), o.get("cls")] for o in sess["ops"]][:6]})
                     for c, a in w["attrs"].items():
                         isolated_attrs.setdefault(c, sorted(set(isolated_attrs.get(c, [])) | set(a)))
                 else:
@@ -249,7 +252,9 @@ def main():
     new = H.class_attr_diff(attrs0)
     for c, a in isolated_attrs.items():
         new[c] = sorted(set(new.get(c, [])) | set(a))
-    print(json.dumps({"results": out, "initial": initial, "new_class_attrs": new, "switch_runtime": runtime}))
+    for x in H.member_cache_check():
+        cache_bad.append({"problem": x, "session": "all non-isolated sessions of the batch"})
+    print(json.dumps({"results": out, "initial": initial, "new_class_attrs": new, "switch_runtime": runtime, "member_cache": cache_bad[:10]}))
 
 
 if __name__ == "__main__":
